@@ -24,13 +24,38 @@ type replayDriver struct {
 var replayTable = []replayDriver{
 	{Funcs: []string{"iobroker.Broker.proxyOut#1"}, PkgDir: "internal/iobroker", File: "iobroker_readerleak_test.go", Test: "TestVerifReplayReaderLeak"},
 	{Funcs: []string{"iobroker.Broker.ConnectInOut"}, PkgDir: "internal/iobroker", File: "iobroker_crosspair_test.go", Test: "TestVerifReplayCrossPair"},
-	{Funcs: []string{"uu.AppendEncode", "uu.AppendDecode", "uu.MaxEncodedLen", "uu.MaxDecodedLen", "bounded.uu"}, PkgDir: "lib/uu", File: "uu_contract_test.go", Test: "TestVerifReplayUUContract"},
+	{Funcs: []string{"uu.AppendEncode", "uu.AppendDecode", "uu.MaxEncodedLen", "uu.MaxDecodedLen", "bounded.uu"}, PkgDir: "lib/uu", File: "uu_contract_test.go", Test: "TestVerifReplayUUContract", Env: modelEnv},
 	{Funcs: []string{"sstls.GetCertificate", "sstls.LoadCachedCertificate", "sstls.SaveCertificate", "bounded.sstls"}, PkgDir: "lib/sstls", File: "sstls_torncache_test.go", Test: "TestVerifBoundedTornCache"},
 	{Funcs: []string{"shellfuncsfile.FromPerl"}, PkgDir: "lib/shellfuncsfile", File: "shellfuncsfile_emptyperl_test.go", Test: "TestVerifReplayEmptyPerl"},
 	{Funcs: []string{"shellfuncsfile.Converter.fromSingleFile", "shellfuncsfile.Converter.fromDirectory"}, PkgDir: "lib/shellfuncsfile", File: "shellfuncsfile_c17_test.go", Test: "TestVerifReplayC17"},
 	{Funcs: []string{"simpleshell.Go"}, PkgDir: "lib/simpleshell", File: "simpleshell_defaultclient_test.go", Test: "TestVerifReplayDefaultClient"},
 	{Funcs: []string{"simpleshell.CmdShell.Go"}, PkgDir: "lib/simpleshell", File: "simpleshell_cmdshell_test.go", Test: "TestVerifReplayCmdShellDrain"},
 	{Funcs: []string{"hsrv.Server.RLogf", "hsrv.Server.RErrorLogf", "hsrv.Server.Logf", "hsrv.Server.ErrorLogf"}, PkgDir: "internal/hsrv", File: "hsrv_rlogf_test.go", Test: "TestVerifReplayRLogf"},
+}
+
+// modelEnv passes the projection of the verifier's model onto the function's
+// []byte inputs to the driver (tried first, before any enumeration).
+func modelEnv(ob *Obligation) []string {
+	env := []string{}
+	have := false
+	for k, v := range ob.Model {
+		if !strings.HasPrefix(k, "input.") {
+			continue
+		}
+		parts := strings.Split(k, ".") // input.<param>.<len|cap|hex>
+		if len(parts) != 3 {
+			continue
+		}
+		switch parts[2] {
+		case "hex", "cap", "len":
+			env = append(env, "VERIF_MODEL_"+parts[1]+"_"+strings.ToUpper(parts[2])+"="+v)
+			have = true
+		}
+	}
+	if have {
+		env = append(env, "VERIF_MODEL_FUNC="+ob.Func)
+	}
+	return env
 }
 
 func runOverlayTest(pkgDir, driverFile, test string, env []string) (string, bool) {
